@@ -56,7 +56,7 @@ type Universe struct {
 	fnAlias map[string]*types.Func
 	// functions absent from the baseline symbol table (see flatten.go)
 	newFuncObjs map[*types.Func]bool
-	Renames []string
+	Renames     []string
 
 	cg       *callgraph.Graph
 	cgKind   string
